@@ -27,6 +27,7 @@ type State struct {
 	calls     []callRec // ghost log of calls into code outside the verified module (library / external), with argument terms
 	callsOpen bool      // an unknown number of unknown calls precedes calls[0] (loop head, merge, modular call)
 	epoch   *Term // changes whenever the heap may have changed (results of heap-reading pure calls depend on it)
+	xepoch  *Term // like epoch, but unchanged by stores into memory the font packages cannot read (see ephemeralHeap)
 	env     map[types.Object]*Term
 	heap    map[string]*Term
 	assumes []*Term
@@ -41,7 +42,11 @@ func (s *State) clone() *State {
 		epochCounter++
 		s.epoch = Var(fmt.Sprintf("epoch!c%d", epochCounter), SInt)
 	}
-	n := &State{env: make(map[types.Object]*Term, len(s.env)), heap: make(map[string]*Term, len(s.heap)), dead: s.dead, epoch: s.epoch}
+	if s.xepoch == nil {
+		epochCounter++
+		s.xepoch = Var(fmt.Sprintf("xepoch!c%d", epochCounter), SInt)
+	}
+	n := &State{env: make(map[types.Object]*Term, len(s.env)), heap: make(map[string]*Term, len(s.heap)), dead: s.dead, epoch: s.epoch, xepoch: s.xepoch}
 	for k, v := range s.env {
 		n.env[k] = v
 	}
@@ -309,6 +314,7 @@ func (x *Exec) merge(base *State, states ...*State) *State {
 	}
 	m := &State{env: map[types.Object]*Term{}, heap: map[string]*Term{}}
 	m.epoch = live[0].epoch
+	m.xepoch = live[0].xepoch
 	m.log = append([]string(nil), live[0].log...)
 	m.logBad = live[0].logBad
 	m.calls = append([]callRec(nil), live[0].calls...)
@@ -327,6 +333,9 @@ func (x *Exec) merge(base *State, states ...*State) *State {
 		}
 		if s.epoch != m.epoch {
 			m.epoch = nil
+		}
+		if s.xepoch != m.xepoch {
+			m.xepoch = nil
 		}
 		if s.logBad || strings.Join(s.log, "\x00") != strings.Join(m.log, "\x00") {
 			m.logBad = true
@@ -416,9 +425,26 @@ func (x *Exec) heapSet(s *State, name string, t *Term) {
 	if old, ok := s.heap[name]; !ok || old != t {
 		if name != "$alloc" && name != "$balloc" {
 			s.epoch = nil
+			if !ephemeralHeap(name) {
+				s.xepoch = nil
+			}
 		}
 	}
 	s.heap[name] = t
+}
+
+// ephemeralHeap: memory that the deterministic functions of the font packages cannot read: the fields of
+// strings.Builder / bytes.Buffer objects and []interface{} arrays (variadic argument lists, PDF arrays) of the
+// verified module. Stores there leave the "external epoch" of those functions unchanged.
+func ephemeralHeap(name string) bool {
+	return strings.HasPrefix(name, "H_strings_Builder_") || strings.HasPrefix(name, "H_bytes_Buffer_") || name == memName(IfaceSort)
+}
+
+func (x *Exec) xepochOf(s *State) *Term {
+	if s.xepoch == nil {
+		s.xepoch = x.freshVar("xepoch", SInt)
+	}
+	return s.xepoch
 }
 
 func (x *Exec) epochOf(s *State) *Term {
@@ -442,6 +468,9 @@ func (x *Exec) havocHeap(s *State, name string) {
 	s.heap[name] = x.freshVar(name, sort)
 	if name != "$alloc" && name != "$balloc" {
 		s.epoch = nil
+		if !ephemeralHeap(name) {
+			s.xepoch = nil
+		}
 	}
 }
 
